@@ -93,6 +93,16 @@ class Trace:
                 now += int(t[1])
                 self.ev.append(Ev(i, "tick", None, op, out, st, now))
                 continue
+            if t[0] in ("file", "rm", "sparse") and len(t) > 2 and t[1] in cur_fs:
+                # the user acts on a filestore between the handler calls
+                fsn = dict(cur_fs[t[1]])
+                if t[0] == "file":
+                    fsn[t[2]] = b"" if t[3] == "-" else bytes.fromhex(t[3])
+                elif t[0] == "rm":
+                    fsn.pop(t[2], None)
+                cur_fs[t[1]] = fsn
+                self.ev.append(Ev(i, t[0], None, op, out, st, now))
+                continue
             h = t[1] if len(t) > 1 else None
             e = Ev(i, t[0], h, op, out, st, now)
             if t[0] == "sm" and len(t) > 3 and t[2] == "pdu":
